@@ -122,9 +122,9 @@ void run(const char* type) {
     drive_binary<V, T>("C04", type, "and", pairs, [](V a, V b) { return avel::to_array(a & b); }, [](T a, T b, T& o) { o = (T)((U)a & (U)b); return true; });
     drive_binary<V, T>("C04", type, "or", pairs, [](V a, V b) { return avel::to_array(a | b); }, [](T a, T b, T& o) { o = (T)((U)a | (U)b); return true; });
     drive_binary<V, T>("C04", type, "xor", pairs, [](V a, V b) { return avel::to_array(a ^ b); }, [](T a, T b, T& o) { o = (T)((U)a ^ (U)b); return true; });
-    drive_binary<V, T>("C04", type, "and_assign", pairs, [](V a, V b) { V& r = (a &= b); return avel::to_array(r); }, [](T a, T b, T& o) { o = (T)((U)a & (U)b); return true; });
-    drive_binary<V, T>("C04", type, "or_assign", pairs, [](V a, V b) { V& r = (a |= b); return avel::to_array(r); }, [](T a, T b, T& o) { o = (T)((U)a | (U)b); return true; });
-    drive_binary<V, T>("C04", type, "xor_assign", pairs, [](V a, V b) { V& r = (a ^= b); return avel::to_array(r); }, [](T a, T b, T& o) { o = (T)((U)a ^ (U)b); return true; });
+    drive_binary<V, T>("C04", type, "and_assign", pairs, [](V a, V b) { auto&& r = (a &= b); return avel::to_array(V(r)); }, [](T a, T b, T& o) { o = (T)((U)a & (U)b); return true; });
+    drive_binary<V, T>("C04", type, "or_assign", pairs, [](V a, V b) { auto&& r = (a |= b); return avel::to_array(V(r)); }, [](T a, T b, T& o) { o = (T)((U)a | (U)b); return true; });
+    drive_binary<V, T>("C04", type, "xor_assign", pairs, [](V a, V b) { auto&& r = (a ^= b); return avel::to_array(V(r)); }, [](T a, T b, T& o) { o = (T)((U)a ^ (U)b); return true; });
     drive_unary<V, T>("C04", type, "not", vals, [](V a) { return avel::to_array(~a); }, [](T a, T& o) { o = (T)(U)~(U)a; return true; });
 
     // shifts by scalar amounts 0..bits inclusive
@@ -132,8 +132,8 @@ void run(const char* type) {
     for (int s = 0; s <= bits; ++s) amts.push_back(s);
     drive_amount<V>(type, "shl_scalar", sv, amts, [](V a, long long s) { return avel::to_array(a << s); }, [](T x, long long s) { return M<T>::shl(x, (unsigned)s); });
     drive_amount<V>(type, "shr_scalar", sv, amts, [](V a, long long s) { return avel::to_array(a >> s); }, [](T x, long long s) { return M<T>::shr(x, (unsigned)s); });
-    drive_amount<V>(type, "shl_scalar_assign", sv, amts, [](V a, long long s) { V& r = (a <<= s); return avel::to_array(r); }, [](T x, long long s) { return M<T>::shl(x, (unsigned)s); });
-    drive_amount<V>(type, "shr_scalar_assign", sv, amts, [](V a, long long s) { V& r = (a >>= s); return avel::to_array(r); }, [](T x, long long s) { return M<T>::shr(x, (unsigned)s); });
+    drive_amount<V>(type, "shl_scalar_assign", sv, amts, [](V a, long long s) { auto&& r = (a <<= s); return avel::to_array(V(r)); }, [](T x, long long s) { return M<T>::shl(x, (unsigned)s); });
+    drive_amount<V>(type, "shr_scalar_assign", sv, amts, [](V a, long long s) { auto&& r = (a >>= s); return avel::to_array(V(r)); }, [](T x, long long s) { return M<T>::shr(x, (unsigned)s); });
 
     // rotations by arbitrary scalar amounts
     std::vector<long long> ramts;
@@ -161,8 +161,8 @@ void run(const char* type) {
         for (uint64_t i = 0; i < n; ++i) sp2[i] = sp[(i * stride) % n];
         drive_binary<V, T>("C04", type, "shl_vector", sp2, [](V a, V b) { return avel::to_array(a << b); }, [](T a, T b, T& o) { o = M<T>::shl(a, (unsigned)(U)b); return true; });
         drive_binary<V, T>("C04", type, "shr_vector", sp2, [](V a, V b) { return avel::to_array(a >> b); }, [](T a, T b, T& o) { o = M<T>::shr(a, (unsigned)(U)b); return true; });
-        drive_binary<V, T>("C04", type, "shl_vector_assign", sp2, [](V a, V b) { V& r_ = (a <<= b); return avel::to_array(r_); }, [](T a, T b, T& o) { o = M<T>::shl(a, (unsigned)(U)b); return true; });
-        drive_binary<V, T>("C04", type, "shr_vector_assign", sp2, [](V a, V b) { V& r_ = (a >>= b); return avel::to_array(r_); }, [](T a, T b, T& o) { o = M<T>::shr(a, (unsigned)(U)b); return true; });
+        drive_binary<V, T>("C04", type, "shl_vector_assign", sp2, [](V a, V b) { auto&& r_ = (a <<= b); return avel::to_array(V(r_)); }, [](T a, T b, T& o) { o = M<T>::shl(a, (unsigned)(U)b); return true; });
+        drive_binary<V, T>("C04", type, "shr_vector_assign", sp2, [](V a, V b) { auto&& r_ = (a >>= b); return avel::to_array(V(r_)); }, [](T a, T b, T& o) { o = M<T>::shr(a, (unsigned)(U)b); return true; });
         // rotations per lane: amounts 0..bits plus arbitrary non-negative amounts
         std::vector<Pair<T>> rp = sp2;
         for (uint64_t i = 0; i < scaled(big ? 2000000 : 100000); ++i) {
